@@ -275,9 +275,22 @@ def gen_W(tier, seed, info):
         for keep in (["r3"], ["r3", "r2"], []):
             stats["exhaustive"] += 1
             yield "W n0.0 n1.0 n2.0 %s t3 b3.k.0.0.%s k k f0" % (" ".join(keep), body)
+    # the drag source gets DRAG_OUTSIDE / DRAG_STOP delivered directly (not by recursion from the root): its
+    # handler releases its own window and then ancestors (or closes / hides them), at depth 2 and 3
+    for depth, pre in ((2, ["n0.0", "n1.0"]), (3, ["n0.0", "n1.0", "n2.0"])):
+        d = depth
+        bodies = ["u%d,u%d" % (d, d - 1), "u%d" % (d - 1), "u%d,c%d,u%d" % (d, d - 1, d - 1), "c%d,u%d" % (d - 1, d - 1),
+                  "u%d,u%d" % (d - 1, d), "c%d,u%d,u%d" % (d, d, d - 1), "u%d,u0" % d, "u0"]
+        if depth == 3:
+            bodies += ["u3,u2,u1", "u3,u1", "u1", "u3,u1,u2", "c1,u1,u3"]
+        for body in bodies:
+            for keep in ([], ["r%d" % (d - 1)], ["r%d" % d]):
+                for mask, evs in (("80", ["mp", "md", "mr"]), ("20", ["mp", "md", "md"]), ("a0", ["mp", "md", "md", "mr"])):
+                    stats["exhaustive"] += 1
+                    yield "W " + " ".join(pre + keep + ["b%d.m.10.1.-" % d, "b%d.m.%s.0.%s" % (d, mask, body)] + evs + ["f0"])
     info["exhaustive"] = True
     info["exhaustive_scope"] = ("W: 2 tree shapes (two siblings; parent+child) x every sequence of <= %d calls over %s; "
-                                "16 flag combinations x 3 depths x 6 teardown orders; 4 restack kinds x 2 targets in a 3-level chain x 10 teardown orders; self-unbinding handlers x 5 nested dispatches x 3 positions x 3 event kinds; leaf handlers destroying an ancestor (focus/steal x kept references x 7 bodies x key/mouse)" % (L, " ".join(alpha)))
+                                "16 flag combinations x 3 depths x 6 teardown orders; 4 restack kinds x 2 targets in a 3-level chain x 10 teardown orders; self-unbinding handlers x 5 nested dispatches x 3 positions x 3 event kinds; leaf handlers destroying an ancestor (focus/steal x kept references x 7 bodies x key/mouse); drag sources whose DRAG_OUTSIDE/DRAG_STOP handlers release themselves and their ancestors (2 depths x 8-13 bodies x 3 kept references x 3 event sequences)" % (L, " ".join(alpha)))
     # --- random well-formed lifecycles, without and with events
     n_wf = 2500 if tier == "quick" else 60000
     for _ in range(n_wf):
